@@ -62,6 +62,7 @@ type Case struct {
 	Stalled bool   `json:"stalled"` // connections did not settle within 2 s after op len(Obs)-1; history cut there
 	Detail  string `json:"detail,omitempty"`
 	Retries int    `json:"retries,omitempty"`
+	Hist    int    `json:"hist,omitempty"` // number used in the destination paths of this run (diagnostics)
 }
 
 func idName(i int) string {
@@ -171,10 +172,13 @@ func handler(w http.ResponseWriter, r *http.Request) {
 		if err != nil {
 			break
 		}
+		n++
 		reg.Lock()
 		cr.msgs = append(cr.msgs, string(data))
+		if dropAfter > 0 && n >= dropAfter {
+			cr.open = false // same critical section: a recorded k-th message means "closed"
+		}
 		reg.Unlock()
-		n++
 		if dropAfter > 0 && n >= dropAfter {
 			break
 		}
@@ -186,12 +190,13 @@ func handler(w http.ResponseWriter, r *http.Request) {
 }
 
 type snap struct {
-	open map[int]int             // url -> open connections
-	msgs map[int]map[string]bool // url -> tags received
+	total map[int]int             // url -> connections ever accepted
+	open  map[int]int             // url -> open connections
+	msgs  map[int]map[string]bool // url -> tags received
 }
 
 func snapshot(hist int) snap {
-	s := snap{open: map[int]int{}, msgs: map[int]map[string]bool{}}
+	s := snap{total: map[int]int{}, open: map[int]int{}, msgs: map[int]map[string]bool{}}
 	prefix := fmt.Sprintf("/h%d/", hist)
 	reg.Lock()
 	for p, pr := range reg.m {
@@ -199,6 +204,7 @@ func snapshot(hist int) snap {
 			continue
 		}
 		_, _, u, _ := parsePath(p)
+		s.total[u] += len(pr.conns)
 		for _, c := range pr.conns {
 			if c.open {
 				s.open[u]++
@@ -320,7 +326,7 @@ func (r *runner) live() map[int]string {
 
 // settle waits until the connections at the servers are what the hub's own client table asks for.
 // That table only paces the wait - the verdict is the oracle's, from the history alone.
-func (r *runner) settle() bool {
+func (r *runner) settle(newU, atLeast int) bool {
 	deadline := time.Now().Add(settleBy)
 	live := r.live()
 	for {
@@ -328,6 +334,11 @@ func (r *runner) settle() bool {
 		ok := true
 		for u, mode := range live {
 			if mode != "down" && s.open[u] != 1 {
+				ok = false
+			}
+			// a rule just (re-)added must have made a connection of its own: one that was open
+			// before belongs to the client it replaced and is on its way out
+			if mode != "down" && u == newU && s.total[u] < atLeast {
 				ok = false
 			}
 		}
@@ -366,28 +377,39 @@ func (r *runner) probe(c *Case, s int, idx int) bool {
 		if !ok || !r.aggUnregister(r.dummy) || !r.aggUnregister(r.dummy) {
 			return false
 		}
-		want := []int{}
+		want, also := []int{}, []int{}
 		for m := range r.mh.Hub.Clients[topic] {
-			if hist, mode, u, ok := parseURL(m.Name); ok && hist == r.hist && mode == "up" {
-				want = append(want, u)
+			if hist, mode, u, ok := parseURL(m.Name); ok && hist == r.hist {
+				if mode == "up" {
+					want = append(want, u)
+				} else if mode != "down" {
+					also = append(also, u) // waited for, but never a reason to repeat the broadcast
+				}
 			}
 		}
 		deadline := time.Now().Add(wait)
+		all := false
 		for {
 			sn := snapshot(r.hist)
-			all := true
+			all = true
+			rest := true
 			for _, u := range want {
 				if !sn.msgs[u][tg] {
 					all = false
 				}
 			}
-			if all {
-				return true
+			for _, u := range also {
+				if !sn.msgs[u][tg] {
+					rest = false
+				}
 			}
-			if time.Now().After(deadline) {
+			if (all && rest) || time.Now().After(deadline) {
 				break
 			}
 			time.Sleep(200 * time.Microsecond)
+		}
+		if all {
+			return true
 		}
 		c.Retries++
 		wait *= 2
@@ -397,6 +419,13 @@ func (r *runner) probe(c *Case, s int, idx int) bool {
 
 func runHistory(c *Case) {
 	log.SetOutput(ioutil.Discard)
+	if f := os.Getenv("C16_LOG"); f != "" {
+		if w, err := os.OpenFile(f, os.O_CREATE|os.O_APPEND|os.O_WRONLY, 0o644); err == nil {
+			log.SetOutput(w)
+			log.SetLevel(log.TraceLevel)
+			log.SetFormatter(&log.TextFormatter{FullTimestamp: true, TimestampFormat: "15:04:05.000000"})
+		}
+	}
 	hist := int(atomic.AddInt64(&histCounter, 1))
 	r := &runner{hist: hist, mh: agg.New(), dead: make(chan struct{}), timer: time.NewTimer(watchdog)}
 	r.h = rwc.New(r.mh)
@@ -406,6 +435,7 @@ func runHistory(c *Case) {
 	r.dummy = &hub.Client{Hub: r.mh.Hub, Name: "barrier", Topic: "zz-barrier", Send: make(chan hub.Message, 1), Stats: hub.NewClientStats()}
 	base := "ws" + strings.TrimPrefix(server.URL, "http")
 	c.Obs, c.Panic, c.Hang, c.Stalled, c.Detail, c.Retries = nil, false, false, false, "", 0
+	c.Hist = hist
 
 	// the two aggregated streams of the host: stream/a <- fa, stream/b <- fb
 	for s := 1; s <= 2; s++ {
@@ -424,8 +454,12 @@ func runHistory(c *Case) {
 	n := 0
 	for i, o := range c.Ops {
 		ok := true
+		newU, atLeast := -1, 0
 		switch o.K {
 		case "Add":
+			if o.ID != 0 {
+				newU, atLeast = o.U, snapshot(hist).total[o.U]+1
+			}
 			ok = r.add(rwc.Rule{ID: idName(o.ID), Stream: streamNames[o.S], Destination: base + pathOf(hist, o.Mode, o.U)})
 		case "Del":
 			ok = r.del(idName(o.ID))
@@ -437,7 +471,7 @@ func runHistory(c *Case) {
 		if !ok || !r.barrier() {
 			break
 		}
-		settled := r.settle()
+		settled := r.settle(newU, atLeast)
 		ob := Obs{Rules: [][3]int{}, Clients: [][2]int{}, Open: []int{}, Recv: []int{}}
 		for id, ru := range r.h.Rules {
 			u := 9999
@@ -511,16 +545,14 @@ func ns(xs []int) string {
 	return lib.List(ss)
 }
 
-func (c Case) modes() (connectable, reliable []int) {
+// reliable lists the destination URLs that are up (accept connections and keep them).
+func (c Case) reliable() (rel []int) {
 	seen := map[int]bool{}
 	for _, o := range c.Ops {
 		if o.K == "Add" && !seen[o.U] {
 			seen[o.U] = true
-			if o.Mode != "down" {
-				connectable = append(connectable, o.U)
-			}
 			if o.Mode == "up" {
-				reliable = append(reliable, o.U)
+				rel = append(rel, o.U)
 			}
 		}
 	}
@@ -553,8 +585,7 @@ func (c Case) coq() string {
 		}
 		obs[i] = lib.App("mkobs", lib.List(rs), lib.List(cs), ns(b.Open), ns(b.Recv))
 	}
-	conn, rel := c.modes()
-	return lib.Tuple(lib.List(ops), lib.List(obs), ns(conn), ns(rel))
+	return lib.Tuple(lib.List(ops), lib.List(obs), ns(c.reliable()))
 }
 
 // ---------------------------------------------------------------- generator
@@ -714,8 +745,8 @@ func oracle(c Case, idx int, res *lib.Result) {
 			}
 		}
 		for id, cu := range curr {
-			if cu.mode == "down" {
-				continue
+			if cu.mode != "up" {
+				continue // a destination that drops connections is between connections every now and then
 			}
 			found := false
 			for _, u := range ob.Open {
